@@ -263,6 +263,24 @@ def run_unit(unit, tier):
     _digest(res, a, m)
     for (cp, mc), b in zip(cans, bs):
         _digest_canary(res, b, mc)
+    if tier == "thorough":
+        # proof-stability probe: the same obligations under another solver seed must give the same verdicts; a proof that
+        # only holds for one seed is a machinery problem (it could flake into a false alarm), reported as undecided
+        alt_seed = 1 + int(os.environ.get("VERIF_SEED", "0") or 0)
+        alt = UnitResult(unit)
+        alt.obligations = dict(res.obligations)
+        alt.tobl_lines, alt.impl_of, alt.ext_post = res.tobl_lines, res.impl_of, getattr(res, "ext_post", {})
+        a2 = run_verus(gen, rl, me, extra=["--smt-option", "smt.random_seed=%d" % alt_seed])
+        _digest(alt, a2, m)
+        res.stability = {"alt_seed": alt_seed, "same_verdicts": sorted(alt.failed) == sorted(res.failed),
+                         "only_main": sorted(set(res.failed) - set(alt.failed)), "only_alt": sorted(set(alt.failed) - set(res.failed)),
+                         "cmd": a2["cmd"]}
+        if not res.stability["same_verdicts"]:
+            res.undecided.append("proof stability: verdicts differ under smt.random_seed=%d (only in the main run: %s; only in the alternate run: %s)"
+                                 % (alt_seed, res.stability["only_main"], res.stability["only_alt"]))
+            # an obligation that fails under one seed only is not a decided violation
+            for k in res.stability["only_main"]:
+                res.failed.pop(k, None)
     return res
 
 
